@@ -133,7 +133,7 @@ Section PermInv.
         specialize (GI1 GI). destruct (find_child GI ch), (find_child GI ch1); try contradiction; [apply GI1|reflexivity]. }
       unfold dir_decision. rewrite PD.
       destruct (should_skip_dir c ms p); [constructor|].
-      destruct (if c_gitignore c then match parse_dir_gi p ch' with GiErr => DGiErr | GiOk m => DEnter (m :: ms) end else DEnter ms);
+      destruct (if c_gitignore c then match parse_dir_gi p ch' with GiErr => if c_fatal c then DGiErr else DEnter (None :: ms) | GiOk m => DEnter (m :: ms) end else DEnter ms);
         try constructor.
       etransitivity; [apply CP|]. apply Permutation_flat_map. exact HP.
     - (* nil *) intros _ _. split; [reflexivity|]. split; [reflexivity|]. split; [reflexivity|].
